@@ -49,3 +49,123 @@ Proof.
       rewrite N.eqb_refl in E. discriminate. }
     rewrite E. reflexivity.
 Qed.
+
+Lemma kill_page c p t0 :
+  Inv c -> own (getp c p) t0 = true -> pg_used (getp c p) = 0 ->
+  (forall f, In f (th_stk (gett c t0)) -> fr_touch p f = false) ->
+  pg_flag (getp c p) <> Freeing /\ pg_tf (getp c p) = [] /\ Inv (setp c p pg0).
+Proof.
+  intros I Hown Hu Hnt. pose proof (i_wf _ I) as Hwf.
+  destruct (own_true _ _ Hown) as [Hal Htid].
+  destruct (a_count _ (i_A _ I) p) as (C1 & C2 & C3 & C4).
+  assert (W0 : mW c (onp p) = 0%nat) by lia.
+  (* no block of p is in a non-free place *)
+  assert (Hnb : forall t f b, In f (th_stk (gett c t)) -> In b (fr_blocks f) -> fst b <> p).
+  { intros t f b Hf Hb Ep. pose proof (mW_ge_th c t (onp p)) as G. unfold th_W in G.
+    assert (1 <= cnt (onp p) (stk_blocks (th_stk (gett c t))))%nat; [|lia].
+    apply (cnt_In_onp _ b); [|unfold onp; apply N.eqb_eq; assumption].
+    unfold stk_blocks. apply in_flat_map. exists f. auto. }
+  assert (Htf : pg_tf (getp c p) = []).
+  { pose proof (mW_ge_tf c p (onp p)) as G. rewrite (cnt_all _ _ (tf_local c p I)) in G.
+    destruct (pg_tf (getp c p)); [reflexivity|cbn in G; lia]. }
+  assert (Hdel : forall h b, In b (hp_del (geth c h)) -> fst b <> p).
+  { intros h b Hb Ep. pose proof (mW_ge_del c h (onp p)) as G.
+    assert (1 <= cnt (onp p) (hp_del (geth c h)))%nat; [|lia].
+    apply (cnt_In_onp _ b); [assumption|unfold onp; apply N.eqb_eq; assumption]. }
+  assert (Hfl : pg_flag (getp c p) <> Freeing).
+  { intros F. pose proof (b_win _ (i_B _ I) p) as W. rewrite F in W. cbn in W.
+    destruct (mWin_pos_ex c Hwf p) as [t Ht]; [lia|].
+    destruct (sum_fr_pos_ex _ _ Ht) as [f [Hf1 Hf2]].
+    destruct f; cbn in Hf2; try lia;
+      try (destruct (fst b =? p) eqn:Eb; [apply N.eqb_eq in Eb|lia];
+           apply (Hnb t _ b Hf1); [left; reflexivity|assumption]).
+    - (* RF6 *) destruct (p0 =? p) eqn:Eq; [apply N.eqb_eq in Eq; subst p0|lia].
+      assert (1 <= mD c (onp p))%nat.
+      { apply (b_nd _ (i_B _ I)). right. pose proof (mPw_ge c t p) as G.
+        pose proof (sum_fr_In (pw_fr p) _ _ Hf1) as G'. cbn in G'. rewrite N.eqb_refl in G'. lia. }
+      pose proof (mD_le_mW c (onp p)). lia.
+    - destruct (p0 =? p) eqn:Eq; [apply N.eqb_eq in Eq; subst p0|lia].
+      assert (1 <= mD c (onp p))%nat.
+      { apply (b_nd _ (i_B _ I)). right. pose proof (mPw_ge c t p) as G.
+        pose proof (sum_fr_In (pw_fr p) _ _ Hf1) as G'. cbn in G'. rewrite N.eqb_refl in G'. lia. }
+      pose proof (mD_le_mW c (onp p)). lia. }
+  split; [assumption|]. split; [assumption|].
+  (* no frame of any thread refers to p *)
+  assert (Hall : forall t f, In f (th_stk (gett c t)) -> fr_touch p f = false).
+  { intros t f Hf. destruct (N.eq_dec t t0) as [->|Hne]; [apply Hnt; assumption|].
+    pose proof (s_frames _ (i_S _ I) t) as F. rewrite forallb_forall in F. specialize (F f Hf).
+    assert (Hq : forall q, own (getp c q) t = true -> (p =? q) = false).
+    { intros q Ho. apply N.eqb_neq. intros <-. apply own_true in Ho as [_ Ho]. congruence. }
+    assert (Hb : existsb (onp p) (fr_blocks f) = false).
+    { destruct (existsb (onp p) (fr_blocks f)) eqn:Ex; [|reflexivity]. apply existsb_exists in Ex as [b [Hb1 Hb2]].
+      unfold onp in Hb2. apply N.eqb_eq in Hb2. exfalso. apply (Hnb t f b Hf Hb1 Hb2). }
+    unfold fr_touch. rewrite Hb. rewrite orb_false_r.
+    destruct f; cbn [fr_page existsb fr_ok] in *; rewrite ?orb_false_r; try reflexivity;
+      rewrite ?andb_true_iff in F; repeat match goal with H : _ /\ _ |- _ => destruct H end;
+      try (apply Hq; assumption).
+    - (* RF6 *) destruct (p =? p0) eqn:Eq; [|reflexivity]. apply N.eqb_eq in Eq. subst p0. exfalso. apply Hfl.
+      apply (in_window_flag c t p I). pose proof (sum_fr_In (win_fr p) _ _ Hf) as G. cbn in G. rewrite N.eqb_refl in G. lia.
+    - destruct (p =? p0) eqn:Eq; [|reflexivity]. apply N.eqb_eq in Eq. subst p0. exfalso. apply Hfl.
+      apply (in_window_flag c t p I). pose proof (sum_fr_In (win_fr p) _ _ Hf) as G. cbn in G. rewrite N.eqb_refl in G. lia.
+    - (* HD3 *) unfold memN. destruct (existsb (N.eqb p) ps) eqn:Ex; [|reflexivity].
+      apply existsb_exists in Ex as [q [Hq1 Hq2]]. apply N.eqb_eq in Hq2. subst q.
+      match goal with H : forallb _ ps = true |- _ => pose proof (forallb_In _ _ H p Hq1) as Ho end.
+      cbn beta in Ho. apply own_true in Ho as [_ Ho]. congruence. }
+  set (c' := setp c p pg0).
+  assert (Gp : forall q, getp c' q = if q =? p then pg0 else getp c q) by (intros; apply getp_setp).
+  assert (EW : forall P, mW c' P = mW c P).
+  { intros P. pose proof (mW_setp c Hwf p pg0 P) as E. rewrite Htf in E. cbn [pg_tf pg0] in E. unfold c'. lia. }
+  assert (EF : forall P, (mF c' P + (cnt P (pg_free (getp c p)) + cnt P (pg_lfree (getp c p))) = mF c P)%nat).
+  { intros P. pose proof (mF_setp c Hwf p pg0 P) as E. cbn [pg_free pg_lfree pg0] in E. rewrite cnt_nil in E. unfold c'. lia. }
+  assert (Lc' : forall q, forallb (onp q) (pg_blocks (getp c' q)) = true).
+  { intros q. rewrite Gp. destruct (q =? p); [reflexivity|apply (a_local _ (i_A _ I))]. }
+  assert (F0 : mF c' (onp p) = 0%nat).
+  { rewrite (mF_local c' p (wf_setp _ _ _ Hwf) Lc'), Gp, N.eqb_refl. reflexivity. }
+  assert (Lp : forall q, q <> p -> (cnt (onp q) (pg_free (getp c p)) + cnt (onp q) (pg_lfree (getp c p)) = 0)%nat).
+  { intros q Hq. pose proof (a_local _ (i_A _ I) p) as L. unfold pg_blocks in L. rewrite !forallb_app in L.
+    apply andb_prop in L as [_ L]. apply andb_prop in L as [L1 L2].
+    rewrite !cnt_none; [reflexivity| |]; intros x Hx.
+    - pose proof (forallb_In _ _ L2 x Hx) as Hp. unfold onp in *. apply N.eqb_eq in Hp. rewrite Hp. apply N.eqb_neq. congruence.
+    - pose proof (forallb_In _ _ L1 x Hx) as Hp. unfold onp in *. apply N.eqb_eq in Hp. rewrite Hp. apply N.eqb_neq. congruence. }
+  constructor.
+  - apply wf_setp. assumption.
+  - constructor.
+    + intros b. rewrite EW. pose proof (a_uniq _ (i_A _ I) b). pose proof (EF (bid_eqb b)). lia.
+    + intros b Hb. rewrite Gp. destruct (fst b =? p) eqn:Eb.
+      * exfalso. apply N.eqb_eq in Eb. pose proof (cnt_eqb_le_onp b) as G.
+        assert (mW c' (bid_eqb b) <= mW c' (onp p))%nat.
+        { rewrite <- Eb. unfold mW. repeat apply Nat.add_le_mono; apply ftot_le; intros v; unfold th_W;
+            try apply Nat.add_le_mono; apply cnt_eqb_le_onp. }
+        assert (mF c' (bid_eqb b) <= mF c' (onp p))%nat.
+        { rewrite <- Eb. unfold mF. apply ftot_le; intros v; apply Nat.add_le_mono; apply cnt_eqb_le_onp. }
+        pose proof (EW (onp p)). lia.
+      * apply (a_range _ (i_A _ I)). rewrite EW in Hb. pose proof (EF (bid_eqb b)). lia.
+    + intros q. rewrite Gp, EW. destruct (q =? p) eqn:Eq.
+      * apply N.eqb_eq in Eq. subst q. rewrite W0, F0. cbn. repeat split; lia.
+      * apply N.eqb_neq in Eq. pose proof (EF (onp q)) as E. rewrite (Lp q Eq) in E. rewrite Nat.add_0_r in E. rewrite E.
+        apply (a_count _ (i_A _ I)).
+    + assumption.
+  - constructor.
+    + intros q. change (mWin c' q) with (mWin c q). rewrite Gp. destruct (q =? p) eqn:Eq; [|apply (b_win _ (i_B _ I))].
+      apply N.eqb_eq in Eq. subst q. pose proof (b_win _ (i_B _ I) p) as W.
+      destruct (flag_eqb (pg_flag (getp c p)) Freeing) eqn:F; [apply flag_eqb_eq in F; contradiction|exact W].
+    + intros q. change (mPw c' q) with (mPw c q). change (mD c' (onp q)) with (mD c (onp q)). rewrite Gp.
+      destruct (q =? p) eqn:Eq; [|apply (b_nd _ (i_B _ I))].
+      apply N.eqb_eq in Eq. subst q. cbn [pg_flag pg0]. intros [H|H]; [discriminate|].
+      apply (b_nd _ (i_B _ I)). right. assumption.
+  - destruct (i_S _ I) as [S1 S2 S3 S4 S5 S6 S7 S8 S9]. constructor.
+    + intros q. rewrite Gp. destruct (q =? p); [reflexivity|apply S1].
+    + intros q. rewrite Gp. destruct (q =? p); [discriminate|apply S2].
+    + exact S3.
+    + exact S4.
+    + exact S5.
+    + intros h. change (geth c' h) with (geth c h). rewrite <- (S6 h). apply forallb_ext_in.
+      intros b Hb. apply del_ok_setp_irrel. apply (Hdel h). assumption.
+    + exact S7.
+    + intros t. change (gett c' t) with (gett c t). rewrite <- (S8 t). apply forallb_ext_in.
+      intros f Hf. apply fr_ok_setp_irrel. apply (Hall t). assumption.
+    + intros t f Hf. change (gett c' t) with (gett c t) in *. specialize (S9 t f Hf).
+      destruct f; cbn [hd_fr_okP] in *; auto.
+      * intros q. rewrite Gp. destruct (q =? p); [discriminate|apply S9].
+      * destruct S9 as [H1 H2]. split; [|exact H2]. intros q. rewrite Gp. destruct (q =? p); [discriminate|apply H1].
+Qed.
